@@ -8,12 +8,12 @@ import (
 
 // ---- AST constructors (same record shapes as spec/Gen.tla) -------------------
 
-func TNull() Node          { return Node{"t": "null"} }
-func TBool(b bool) Node    { return Node{"t": "bool", "b": b} }
-func TNum(n, d int) Node   { return Node{"t": "num", "n": n, "d": d} }
-func TInt(n int) Node      { return TNum(n, 1) }
-func TArr(es []any) Node   { return Node{"t": "arr", "e": es} }
-func TObj(f Node) Node     { return Node{"t": "obj", "f": f} }
+func TNull() Node        { return Node{"t": "null"} }
+func TBool(b bool) Node  { return Node{"t": "bool", "b": b} }
+func TNum(n, d int) Node { return Node{"t": "num", "n": n, "d": d} }
+func TInt(n int) Node    { return TNum(n, 1) }
+func TArr(es []any) Node { return Node{"t": "arr", "e": es} }
+func TObj(f Node) Node   { return Node{"t": "obj", "f": f} }
 func TStr(s string) Node {
 	cps := []any{}
 	for _, r := range s {
@@ -298,6 +298,63 @@ func init() {
 			rows := g.Rows(cols, g.R.Intn(9))
 			doc := TObj(Node{"t": TArr(rows)})
 			q := With(BaseQ(), "where", g.Pred(cols, 1+g.R.Intn(5)))
+			ev, out := RecordEngine(w, q, doc, Style{}, nil)
+			info.Queries++
+			info.Events += ev
+			if len(info.Samples) < 3 {
+				info.Samples = append(info.Samples, out.SQL)
+			}
+		}
+		return info
+	}
+}
+
+// ---- C05: ORDER BY / LIMIT / OFFSET beyond the exhaustive bounds -------------------
+
+func (g *Gen) OrderQuery(cols []ColSpec) Node {
+	keyable := []string{}
+	for _, c := range cols {
+		if c.Kind != "nnum" && c.Kind != "bool" {
+			keyable = append(keyable, c.Name)
+		}
+	}
+	order := []any{}
+	if g.R.Intn(5) == 0 {
+		// the single nullable key
+		order = append(order, Node{"key": []any{"n"}, "asc": g.R.Intn(2) == 0})
+	} else {
+		g.R.Shuffle(len(keyable), func(i, j int) { keyable[i], keyable[j] = keyable[j], keyable[i] })
+		for i := 0; i < 1+g.R.Intn(3) && i < len(keyable); i++ {
+			order = append(order, Node{"key": []any{keyable[i]}, "asc": g.R.Intn(2) == 0})
+		}
+	}
+	q := With(BaseQ(), "order", order)
+	switch g.R.Intn(4) {
+	case 0:
+	case 1:
+		q["limit"] = g.R.Intn(12)
+	default:
+		q["limit"], q["offset"] = g.R.Intn(12), g.R.Intn(12)
+		if g.R.Intn(2) == 0 {
+			q["limstyle"] = "comma"
+		}
+	}
+	if g.R.Intn(6) == 0 {
+		q["order"] = []any{}
+	}
+	return q
+}
+
+func init() {
+	Retrace["C05"] = engineRetrace
+	TraceGen["C05"] = func(seed int64, n int, tier string, w io.Writer) TraceInfo {
+		g := NewGen(seed)
+		cols := []ColSpec{{"a", "num"}, {"h", "half"}, {"s", "str"}, {"n", "nnum"}}
+		info := TraceInfo{}
+		for i := 0; i < n; i++ {
+			rows := g.Rows(cols, g.R.Intn(11))
+			doc := TObj(Node{"t": TArr(rows)})
+			q := g.OrderQuery(cols)
 			ev, out := RecordEngine(w, q, doc, Style{}, nil)
 			info.Queries++
 			info.Events += ev
